@@ -1,2 +1,337 @@
+import FoxModel.Model.Heap
+import FoxModel.Generated.Writes
+/-
+  Property C03 — a published routing state never changes (snapshot immutability).
+
+  Over the heap model of a write transaction (Model/Heap.lean): every in-place write performed by the copy-on-write
+  search, and every in-place write that insert / update / remove perform afterwards on `p`, `pp`, `ppp` or on nodes they
+  have just built, targets a cell allocated since the last snapshot. Hence the cells that existed when a snapshot was
+  taken — everything an Iter, a read-only Txn, a Txn.Snapshot or a request being served can reach — are bit-for-bit the
+  same after any later sequence of writes, snapshots, commits and aborts, including transactions that overflow the
+  writable-node cache (the LRU only ever holds private cells, whatever it evicts) and the single-operation helpers that
+  do not cache at all.
+-/
 namespace Fox.C03
+open Fox Fox.Heap
+
+/-- invariant of a transaction: the LRU only holds cells allocated since the last snapshot -/
+def Inv (st : St) : Prop := st.frozen ≤ st.heap.length ∧ ∀ w ∈ st.writable, st.frozen ≤ w
+
+def Private (st : St) (q : Option Nat) : Prop := ∀ x, q = some x → st.frozen ≤ x
+
+theorem take_set_ge {α} (l : List α) (i n : Nat) (x : α) (h : n ≤ i) : (l.set i x).take n = l.take n := by
+  induction l generalizing i n with
+  | nil => simp
+  | cons a as ih =>
+    cases n with
+    | zero => simp
+    | succ n =>
+      cases i with
+      | zero => omega
+      | succ i => simp [List.set, ih i n (by omega)]
+
+theorem setChild_length (heap : List Cell) (p idx child : Nat) : (setChild heap p idx child).length = heap.length := by
+  unfold setChild; split <;> simp
+
+theorem setChild_take (heap : List Cell) (p idx child n : Nat) (h : n ≤ p) :
+    (setChild heap p idx child).take n = heap.take n := by
+  unfold setChild
+  split
+  · exact take_set_ge _ _ _ _ h
+  · rfl
+
+theorem take_append_le {α} (l : List α) (x : α) (n : Nat) (h : n ≤ l.length) : (l ++ [x]).take n = l.take n := by
+  rw [List.take_append_of_le_length h]
+
+theorem addWritable_heap (st : St) (id : Nat) : (addWritable st id).heap = st.heap ∧ (addWritable st id).frozen = st.frozen := by
+  unfold addWritable; split <;> simp
+
+theorem addWritable_inv {st : St} (h : Inv st) {id : Nat} (hid : st.frozen ≤ id) : Inv (addWritable st id) := by
+  unfold addWritable
+  split
+  · refine ⟨h.1, ?_⟩
+    intro w hw
+    have := List.mem_of_mem_take hw
+    simp only [List.mem_cons] at this
+    rcases this with rfl | h'
+    · exact hid
+    · exact h.2 w h'
+  · exact h
+
+theorem cloneOf_spec (st : St) (current : Nat) (h : Inv st) :
+    Inv (cloneOf st current).1 ∧ (cloneOf st current).1.frozen = st.frozen ∧
+    (cloneOf st current).1.heap.take st.frozen = st.heap.take st.frozen ∧ st.frozen ≤ (cloneOf st current).2 := by
+  have hfresh : st.frozen ≤ st.heap.length := h.1
+  have hInvA : Inv (alloc st (st.heap.getD current default)).1 := by
+    refine ⟨?_, h.2⟩
+    simp only [alloc, List.length_append, List.length_singleton]; exact Nat.le_succ_of_le hfresh
+  have hB := addWritable_heap (alloc st (st.heap.getD current default)).1 st.heap.length
+  refine ⟨addWritable_inv hInvA (by simpa [alloc] using hfresh), ?_, ?_, hfresh⟩
+  · show (addWritable (alloc st (st.heap.getD current default)).1 st.heap.length).frozen = st.frozen
+    rw [hB.2]; rfl
+  · show (addWritable (alloc st (st.heap.getD current default)).1 st.heap.length).heap.take st.frozen = _
+    rw [hB.1]
+    exact take_append_le _ _ _ hfresh
+
+theorem link_spec (m : Bytes) (st : St) (par : Option Nat) (pslot cp : Nat) (writes : List Nat)
+    (h : Inv st) (hp : Private st par) (hw : ∀ w ∈ writes, st.frozen ≤ w) :
+    Inv (link m st par pslot cp writes).1 ∧ (link m st par pslot cp writes).1.frozen = st.frozen ∧
+    (link m st par pslot cp writes).1.heap.take st.frozen = st.heap.take st.frozen ∧
+    (∀ w ∈ (link m st par pslot cp writes).2, st.frozen ≤ w) := by
+  unfold link
+  cases par with
+  | none => exact ⟨h, rfl, rfl, hw⟩
+  | some q =>
+    have hq : st.frozen ≤ q := hp q rfl
+    refine ⟨⟨?_, h.2⟩, rfl, setChild_take _ _ _ _ _ hq, ?_⟩
+    · show st.frozen ≤ (setChild st.heap q pslot cp).length
+      rw [setChild_length]; exact h.1
+    · intro w hw'
+      simp only [List.mem_cons] at hw'
+      rcases hw' with rfl | h'
+      · exact hq
+      · exact hw w h'
+
+/-- one visit: the clone is fresh, it is linked into a private parent, the frozen part is untouched -/
+theorem visit_spec (m : Bytes) (st : St) (current pslot : Nat) (par : Option Nat) (writes : List Nat)
+    (h : Inv st) (hp : Private st par) (hw : ∀ w ∈ writes, st.frozen ≤ w) :
+    Inv (visit m st current pslot par writes).1 ∧
+    (visit m st current pslot par writes).1.frozen = st.frozen ∧
+    (visit m st current pslot par writes).1.heap.take st.frozen = st.heap.take st.frozen ∧
+    st.frozen ≤ (visit m st current pslot par writes).2.1 ∧
+    (∀ w ∈ (visit m st current pslot par writes).2.2, st.frozen ≤ w) := by
+  unfold visit
+  by_cases hc : st.writable.contains current = true
+  · rw [if_pos hc]
+    refine ⟨h, ?_, ?_, h.2 current (by simpa using hc), hw⟩ <;> rfl
+  · rw [if_neg hc]
+    obtain ⟨ci, cf, ct, cp⟩ := cloneOf_spec st current h
+    have hp' : Private (cloneOf st current).1 par := by intro x hx; rw [cf]; exact hp x hx
+    have hw' : ∀ w ∈ writes, (cloneOf st current).1.frozen ≤ w := by intro w hw2; rw [cf]; exact hw w hw2
+    obtain ⟨li, lf, lt, lw⟩ := link_spec m (cloneOf st current).1 par pslot (cloneOf st current).2 writes ci hp' hw'
+    refine ⟨li, by rw [lf, cf], ?_, cp, ?_⟩
+    · rw [cf] at lt; rw [lt, ct]
+    · intro w hw2; rw [← cf]; exact lw w hw2
+
+/-- **the copy-on-write search never writes a frozen cell**, whatever the tree, the path, the state of the LRU (also
+    when it overflows and evicts) and with or without caching; the parents `p`, `pp`, `ppp` it returns are private. -/
+theorem cow_spec (fuel : Nat) (m : Bytes) : ∀ (st : St) (current pslot : Nat) (p pp ppp : Option Nat) (path : List Tok)
+    (writes : List Nat), Inv st → Private st p → Private st pp → Private st ppp → (∀ w ∈ writes, st.frozen ≤ w) →
+    Inv (cow fuel m st current pslot p pp ppp path writes).1 ∧
+    (cow fuel m st current pslot p pp ppp path writes).1.frozen = st.frozen ∧
+    (cow fuel m st current pslot p pp ppp path writes).1.heap.take st.frozen = st.heap.take st.frozen ∧
+    Private st (cow fuel m st current pslot p pp ppp path writes).2.p ∧
+    Private st (cow fuel m st current pslot p pp ppp path writes).2.pp ∧
+    Private st (cow fuel m st current pslot p pp ppp path writes).2.ppp ∧
+    (∀ w ∈ (cow fuel m st current pslot p pp ppp path writes).2.writes, st.frozen ≤ w) := by
+  induction fuel with
+  | zero =>
+    intro st current pslot p pp ppp path writes h hp hpp hppp hw
+    exact ⟨h, rfl, rfl, hp, hpp, hppp, hw⟩
+  | succ fuel ih =>
+    intro st current pslot p pp ppp path writes h hp hpp hppp hw
+    unfold cow
+    cases path with
+    | nil => exact ⟨h, rfl, rfl, hp, hpp, hppp, hw⟩
+    | cons t ts =>
+      simp only
+      cases hg : getEdge st.heap current (Model.firstByte [t]) with
+      | none => exact ⟨h, rfl, rfl, hp, hpp, hppp, hw⟩
+      | some sn =>
+        obtain ⟨slot, next⟩ := sn
+        simp only
+        obtain ⟨hi, hf, ht, hp1, hw1⟩ := visit_spec m st current pslot p writes h hp hw
+        generalize hk : matchLen ((Option.map (fun x => x.key) (visit m st current pslot p writes).1.heap[next]?).getD [])
+          (t :: ts) = k
+        split
+        · refine ⟨hi, hf, ht, ?_, hp, hpp, hw1⟩
+          intro x hx; injection hx with hx; rw [← hx]; exact hp1
+        · have hPriv : ∀ q, Private st q → Private (visit m st current pslot p writes).1 q := by
+            intro q hq x hx; rw [hf]; exact hq x hx
+          have := ih (visit m st current pslot p writes).1 next slot (some (visit m st current pslot p writes).2.1) p pp
+            ((t :: ts).drop k)
+            (visit m st current pslot p writes).2.2 hi
+            (by intro x hx; injection hx with hx; rw [← hx, hf]; exact hp1)
+            (hPriv p hp) (hPriv pp hpp) (by intro w hw'; rw [hf]; exact hw1 w hw')
+          rw [hf] at this
+          obtain ⟨a, b, c, d, e, f, g⟩ := this
+          have back : ∀ q, Private (visit m st current pslot p writes).1 q → Private st q := by
+            intro q hq x hx; rw [← hf]; exact hq x hx
+          refine ⟨a, b, ?_, back _ d, back _ e, back _ f, g⟩
+          rw [← ht, ← c]
+
+
+/-- what the write sites of insert / update / remove are allowed to do after a search that returned `f`, `base` being
+    the heap size before the operation: overwrite a child slot of `p`, `pp`, `ppp` or of a node built by this very
+    operation; remember a node built by this operation as writable; allocate; install a new roots slice -/
+def allowed (f : Found) (base : Nat) : Mut → Bool
+  | .updateEdge t _ _ => f.p == some t || f.pp == some t || f.ppp == some t || decide (base ≤ t)
+  | .addWritable id => decide (base ≤ id)
+  | _ => true
+
+def applyMuts (f : Found) (base : Nat) (st : St) (muts : List Mut) : St :=
+  muts.foldl (fun s mu => if allowed f base mu then applyMut s mu else s) st
+
+/-- one step of a transaction's life -/
+inductive Step where
+  /-- Handle / Update / Delete through the transaction: copy-on-write search from the root cell, then the writes -/
+  | write (m : Bytes) (root : Nat) (path : List Tok) (muts : List Mut)
+  /-- Truncate: only a new roots slice and new empty root cells -/
+  | truncate (cells : List Cell) (rs : List (Bytes × Nat))
+  /-- Iter / Snapshot / Commit / a new transaction: everything allocated so far may now be shared -/
+  | freeze
+
+def runStep (st : St) : Step → St
+  | .write m root path muts =>
+    let r := cow (path.length + 1) m st root 0 none none none path []
+    applyMuts r.2 st.heap.length r.1 muts
+  | .truncate cells rs => { cells.foldl (fun s c => (alloc s c).1) st with roots := rs }
+  | .freeze => freeze st
+
+def run (st : St) (steps : List Step) : St := steps.foldl runStep st
+
+theorem applyMut_spec (f : Found) (base : Nat) (st : St) (mu : Mut) (fz : Nat) (hfz : st.frozen = fz) (h : Inv st)
+    (hp : ∀ x, f.p = some x → fz ≤ x) (hpp : ∀ x, f.pp = some x → fz ≤ x) (hppp : ∀ x, f.ppp = some x → fz ≤ x)
+    (hb : fz ≤ base) (ha : allowed f base mu = true) :
+    Inv (applyMut st mu) ∧ (applyMut st mu).frozen = fz ∧ (applyMut st mu).heap.take fz = st.heap.take fz := by
+  subst hfz
+  cases mu with
+  | allocNode c =>
+    refine ⟨⟨?_, h.2⟩, rfl, take_append_le _ _ _ h.1⟩
+    simp only [applyMut, alloc, List.length_append, List.length_singleton]; exact Nat.le_succ_of_le h.1
+  | updateEdge t s c =>
+    have ht : st.frozen ≤ t := by
+      simp only [allowed, Bool.or_eq_true, beq_iff_eq, decide_eq_true_eq] at ha
+      rcases ha with ((h1 | h1) | h1) | h1
+      · exact hp t h1
+      · exact hpp t h1
+      · exact hppp t h1
+      · exact Nat.le_trans hb h1
+    refine ⟨⟨?_, h.2⟩, rfl, setChild_take _ _ _ _ _ ht⟩
+    show st.frozen ≤ (setChild st.heap t s c).length
+    rw [setChild_length]; exact h.1
+  | newRoots rs => exact ⟨h, rfl, rfl⟩
+  | addWritable id =>
+    have hid : st.frozen ≤ id := by
+      simp only [allowed, decide_eq_true_eq] at ha
+      exact Nat.le_trans hb ha
+    have := addWritable_heap st id
+    exact ⟨addWritable_inv h hid, this.2, by rw [show (applyMut st (Mut.addWritable id)).heap = st.heap from this.1]⟩
+
+theorem applyMuts_spec (f : Found) (base : Nat) (fz : Nat) (muts : List Mut) :
+    ∀ (st : St), st.frozen = fz → Inv st →
+    (∀ x, f.p = some x → fz ≤ x) → (∀ x, f.pp = some x → fz ≤ x) → (∀ x, f.ppp = some x → fz ≤ x) → fz ≤ base →
+    Inv (applyMuts f base st muts) ∧ (applyMuts f base st muts).frozen = fz ∧
+      (applyMuts f base st muts).heap.take fz = st.heap.take fz := by
+  induction muts with
+  | nil => intro st hfz h _ _ _ _; exact ⟨h, hfz, rfl⟩
+  | cons mu rest ih =>
+    intro st hfz h hp hpp hppp hb
+    simp only [applyMuts, List.foldl_cons]
+    by_cases ha : allowed f base mu = true
+    · simp only [ha, if_true]
+      obtain ⟨i1, f1, t1⟩ := applyMut_spec f base st mu fz hfz h hp hpp hppp hb ha
+      obtain ⟨i2, f2, t2⟩ := ih (applyMut st mu) f1 i1 hp hpp hppp hb
+      exact ⟨i2, f2, by rw [← t1]; exact t2⟩
+    · simp only [ha, Bool.false_eq_true, if_false]
+      exact ih st hfz h hp hpp hppp hb
+
+theorem allocs_spec (cells : List Cell) : ∀ (st : St), Inv st →
+    Inv (cells.foldl (fun s c => (alloc s c).1) st) ∧ (cells.foldl (fun s c => (alloc s c).1) st).frozen = st.frozen ∧
+    (cells.foldl (fun s c => (alloc s c).1) st).heap.take st.frozen = st.heap.take st.frozen := by
+  induction cells with
+  | nil => intro st h; exact ⟨h, rfl, rfl⟩
+  | cons c cs ih =>
+    intro st h
+    simp only [List.foldl_cons]
+    have h1 : Inv (alloc st c).1 := by
+      refine ⟨?_, h.2⟩
+      simp only [alloc, List.length_append, List.length_singleton]; exact Nat.le_succ_of_le h.1
+    obtain ⟨a, b, c'⟩ := ih (alloc st c).1 h1
+    refine ⟨a, b, ?_⟩
+    have : (alloc st c).1.frozen = st.frozen := rfl
+    rw [this] at c'
+    rw [c']
+    exact take_append_le _ _ _ h.1
+
+/-- one step never changes a frozen cell, keeps the invariant and never lowers the frozen mark -/
+theorem runStep_spec (st : St) (step : Step) (h : Inv st) :
+    Inv (runStep st step) ∧ st.frozen ≤ (runStep st step).frozen ∧
+    (runStep st step).heap.take st.frozen = st.heap.take st.frozen := by
+  cases step with
+  | write m root path muts =>
+    simp only [runStep]
+    obtain ⟨ci, cf, ct, cp, cpp, cppp, _⟩ := cow_spec (path.length + 1) m st root 0 none none none path [] h
+      (by intro x hx; cases hx) (by intro x hx; cases hx) (by intro x hx; cases hx) (by intro w hw; cases hw)
+    obtain ⟨a, b, c⟩ := applyMuts_spec (cow (path.length + 1) m st root 0 none none none path []).2 st.heap.length
+      st.frozen muts (cow (path.length + 1) m st root 0 none none none path []).1 cf ci cp cpp cppp h.1
+    exact ⟨a, by rw [b]; exact Nat.le_refl _, by rw [c, ct]⟩
+  | truncate cells rs =>
+    simp only [runStep]
+    obtain ⟨a, b, c⟩ := allocs_spec cells st h
+    exact ⟨⟨a.1, a.2⟩, by show st.frozen ≤ (List.foldl (fun s c => (alloc s c).1) st cells).frozen; rw [b]; exact Nat.le_refl _, c⟩
+  | freeze =>
+    refine ⟨⟨Nat.le_refl _, by intro w hw; cases hw⟩, h.1, rfl⟩
+
+/-- **frozen cells are stable under any continuation of the transaction's life** -/
+theorem frozen_stable (steps : List Step) : ∀ (st : St), Inv st →
+    Inv (run st steps) ∧ st.frozen ≤ (run st steps).frozen ∧ (run st steps).heap.take st.frozen = st.heap.take st.frozen := by
+  induction steps with
+  | nil => intro st h; exact ⟨h, Nat.le_refl _, rfl⟩
+  | cons s rest ih =>
+    intro st h
+    simp only [run, List.foldl_cons]
+    obtain ⟨i1, f1, t1⟩ := runStep_spec st s h
+    obtain ⟨i2, f2, t2⟩ := ih (runStep st s) i1
+    refine ⟨i2, Nat.le_trans f1 f2, ?_⟩
+    have := congrArg (List.take st.frozen) t2
+    simp only [List.take_take, Nat.min_eq_left f1] at this
+    rw [← t1]; exact this
+
+/-- **C03: a snapshot is frozen.** Whatever an Iter, a read-only Txn, a Txn.Snapshot, a committed tree or a request
+    being served can reach is the heap as it was when the snapshot was taken; after any later sequence of writes
+    (with any search paths, any LRU capacity incl. 0 and overflow, cached or not), truncations, further snapshots,
+    commits and aborts, every one of those cells is unchanged. -/
+theorem snapshot_stable (st : St) (h : Inv st) (steps : List Step) :
+    (run (freeze st) steps).heap.take st.heap.length = st.heap := by
+  have hi : Inv (freeze st) := ⟨Nat.le_refl _, by intro w hw; cases hw⟩
+  have := (frozen_stable steps (freeze st) hi).2.2
+  simpa [freeze] using this
+
+/-- writes after a snapshot do not depend on the snapshot having been taken in any way other than the private set being
+    reset: taking it changes neither the heap nor the roots -/
+theorem freeze_is_transparent (st : St) : (freeze st).heap = st.heap ∧ (freeze st).roots = st.roots := ⟨rfl, rfl⟩
+
+/-- **tie to the Go sources** (regenerated on every run): the only in-place write of a child slot is `updateEdge`; it is
+    called on `pp` inside copyOnWriteSearch and on `result.p` / `result.pp` / `result.ppp` in insert / update / remove —
+    exactly the targets `allowed` permits; the only other assignments to node fields initialise nodes that the same
+    function has just built (`n.key`, `parent.key`, `nr[i].…`); only clones and freshly built root nodes are ever added
+    to the writable cache; snapshot, clone and commit reset it. A new write site anywhere breaks this theorem. -/
+theorem writes_tie :
+    Generated.updateEdgeCalls.eraseDups =
+      ["tXn.copyOnWriteSearch|pp", "tXn.insert|result.p", "tXn.remove|result.p", "tXn.remove|result.pp",
+       "tXn.remove|result.ppp", "tXn.update|result.p"] ∧
+    Generated.nodeFieldAssigns.eraseDups =
+      ["Router.newTree|nr[i].key", "Router.newTree|nr[i].paramChildIndex", "Router.newTree|nr[i].wildcardChildIndex",
+       "node.updateEdge|n.children[id]", "tXn.insert|n.key", "tXn.remove|parent.key", "tXn.truncate|nr[i].key",
+       "tXn.truncate|nr[i].paramChildIndex", "tXn.truncate|nr[i].wildcardChildIndex", "tXn.truncate|nr[idx].key",
+       "tXn.truncate|nr[idx].paramChildIndex", "tXn.truncate|nr[idx].wildcardChildIndex"] ∧
+    Generated.writableAdds.eraseDups = ["tXn.copyOnWriteSearch|cp", "tXn.insert|n", "tXn.remove|parent"] ∧
+    Generated.writableResets = ["tXn.clone", "tXn.commit", "tXn.snapshot"] := by
+  decide
+
+/-! ### non-vacuity: a concrete transaction that clones a path, links the clones in place and overflows a 1-slot LRU -/
+section Example
+def c (k : List Tok) (cs : List Nat) : Cell := ⟨k, none, cs⟩
+/-- root(0) → "/a"(1) → "/b"(2) -/
+def st0 : St := { heap := [c [] [1], c [.lit 47, .lit 97] [2], c [.lit 47, .lit 98] []], frozen := 3, writable := [],
+                  roots := [([71, 69, 84], 0)], cap := 1 }
+example : Inv st0 := ⟨by decide, by intro w hw; cases hw⟩
+-- the search for /a/b/c clones the root and "/a" (cells 3 and 4), links 4 into 3 in place, and leaves cells 0-2 alone
+example : (cow 10 [71, 69, 84] st0 0 0 none none none [.lit 47, .lit 97, .lit 47, .lit 98, .lit 47, .lit 99] []).2.writes = [3]
+  := by decide
+example : ((cow 10 [71, 69, 84] st0 0 0 none none none [.lit 47, .lit 97, .lit 47, .lit 98, .lit 47, .lit 99] []).1.heap.take 3
+  == st0.heap) = true := by decide
+end Example
+
 end Fox.C03
